@@ -140,7 +140,7 @@ class ULPIRegisterWindow(Elaboratable):
 
                     # Once it is, start sending our command.
                     m.d.usb += [
-                        self.ulpi_data_out .eq(self.COMMAND_REG_READ | self.address),
+                        self.ulpi_data_out .eq(self.COMMAND_REG_READ | current_address),
                         self.ulpi_out_req  .eq(1)
                     ]
 
@@ -199,7 +199,7 @@ class ULPIRegisterWindow(Elaboratable):
 
                     # Once it is, start sending our command.
                     m.d.usb += [
-                        self.ulpi_data_out .eq(self.COMMAND_REG_WRITE | self.address),
+                        self.ulpi_data_out .eq(self.COMMAND_REG_WRITE | current_address),
                         self.ulpi_out_req  .eq(1)
                     ]
 
@@ -217,7 +217,7 @@ class ULPIRegisterWindow(Elaboratable):
                 # Hold our address until the PHY has accepted the command;
                 # and then move to presenting the PHY with the value to be written.
                 with m.Elif(self.ulpi_next):
-                    m.d.usb += self.ulpi_data_out.eq(self.write_data)
+                    m.d.usb += self.ulpi_data_out.eq(current_write)
                     m.next = 'HOLD_WRITE'
 
 
@@ -441,6 +441,7 @@ class ULPIControlTranslator(Elaboratable):
         # Create internal signals that request register updates.
         write_requested = Signal(name=f"write_requested_{address:02x}")
         write_value     = Signal(8, name=f"write_value_{address:02x}")
+        write_pending   = Signal(name=f"write_pending_{address:02x}")
         write_done      = Signal(name=f"write_done_{address:02x}")
 
         self._register_signals[address] = {
@@ -456,8 +457,24 @@ class ULPIControlTranslator(Elaboratable):
         # If we have a mismatch between the requested and actual register value,
         # request a write of the new value.
         m.d.comb += write_requested.eq(current_register_value != value)
-        with m.If(current_register_value != value):
-            m.d.usb += write_value.eq(value)
+
+        # Once the register window has accepted a write to this register, the write is ours
+        # until the window is done; other registers may be requesting writes in the meantime.
+        with m.If(self.register_window.done):
+            m.d.usb += write_pending.eq(0)
+        with m.Elif(self.register_window.write_request & ~self.register_window.busy &
+                (self.register_window.address == address)):
+            m.d.usb += write_pending.eq(1)
+        m.d.comb += write_done.eq(write_pending & self.register_window.done)
+
+        # Follow the requested value until it's handed to the register window; then hold it
+        # until the write is done, so we always record the value the PHY has actually received.
+        held_value = Signal(8, name=f"held_value_{address:02x}")
+        with m.If(write_pending):
+            m.d.comb += write_value.eq(held_value)
+        with m.Else():
+            m.d.comb += write_value.eq(value)
+            m.d.usb  += held_value.eq(value)
 
 
     def populate_ulpi_registers(self, m):
@@ -504,9 +521,6 @@ class ULPIControlTranslator(Elaboratable):
                     self.bus_idle
 
                 m.d.comb += [
-
-                    # Control signals.
-                    signals['write_done']              .eq(self.register_window.done),
 
                     # Register window signals.
                     self.register_window.address       .eq(address),
